@@ -11,7 +11,7 @@ BASE = dict(offsets=(-18000, 3600), srule=('M', 3, 2, 0), erule=('M', 11, 1, 0),
             south=False, explicit=True)
 
 MENUS = collections.OrderedDict([
-    ('offsets', [(36000, 3600), (19800, 1800), (0, 7200), (-12600, 3600)]),
+    ('offsets', [(36000, 3600), (19800, 1800), (0, 7200), (-12600, 3600), (-7200, 7200)]),    # the last one: daylight offset 0, written explicitly
     ('srule', [('M', 3, 5, 0), ('M', 4, 1, 3), ('J', 60), ('J', 100), ('N', 59), ('N', 100), ('M', 3, 1, 1)]),     # d=1: Monday
     ('erule', [('M', 10, 5, 0), ('M', 9, 5, 6), ('J', 300), ('N', 300), ('J', 305), ('M', 10, 5, 1)]),
     ('stime', [7200, 0, 1800, 3600, 10800, 86400, 93600, 7230]),       # 7230 = 2:00:30 (hh:mm:ss form)
